@@ -3,7 +3,8 @@
     No proofs in this file.
 
     Go code followed, function by function (names kept):
-      sql/sqlcheck/sqlcheck.go   File.loadSpans / schemaSpan / tableSpan / SchemaSpan / TableSpan / ColumnSpan
+      sql/sqlcheck/sqlcheck.go   File.loadSpans (AFTER fix C18-loadspans-rename: RenameTable / RenameColumn carry the
+                                 life-span to the new name) / schemaSpan / tableSpan / SchemaSpan / TableSpan / ColumnSpan
                                  (spans: schema name -> state + table name -> state + column name -> state;
                                  Go maps with lazily created zero entries = total functions with a default)
       sql/sqlcheck/destructive/destructive.go   New (option `error`, default true; the only option of
@@ -77,7 +78,9 @@ Definition span_gtchange (cols : name -> span) (c : gtchange) : name -> span :=
   match c with
   | GAddColumn c1 => upd cols (gc_name c1) SpanAdded
   | GDropColumn c1 => upd cols (gc_name c1) (or_dropped (cols (gc_name c1)))
-  | _ => cols
+  (* fix C18-loadspans-rename: columns[To] = columns[From]; delete(columns, From) *)
+  | GRenameColumn a b => upd (upd cols (gc_name b) (cols (gc_name a))) (gc_name a) SpanUnknown
+  | GOtherT _ _ => cols
   end.
 
 (** the outer switch of loadSpans *)
@@ -90,7 +93,15 @@ Definition span_gchange (sp : gspans) (c : gchange) : gspans :=
         (fold_left (fun m col => upd m (gc_name col) SpanAdded) (gt_cols T) (ts_cols ts)))
   | GDropTable T => on_tab sp T (fun ts => mkTS (or_dropped (ts_state ts)) (ts_cols ts))
   | GModifyTable T cs => on_tab sp T (fun ts => mkTS (ts_state ts) (fold_left span_gtchange cs (ts_cols ts)))
-  | GRenameTable _ _ => sp
+  (* fix C18-loadspans-rename: from, to := tableSpan(From), tableSpan(To); to.state = from.state;
+     to.columns = a copy of from.columns (a nil Schema of either table panics, see [nil_schema]) *)
+  | GRenameTable F T =>
+      match gt_schema F with
+      | None => sp
+      | Some sf =>
+          let fs := ss_tabs (sp sf) (gt_name F) in
+          on_tab sp T (fun _ => mkTS (ts_state fs) (ts_cols fs))
+      end
   | GOther _ => sp
   end.
 
@@ -166,11 +177,13 @@ Definition queries (c : gchange) : bool :=
   | _ => false
   end.
 
-(** loadSpans calls tableSpan(c.T) with a nil T.Schema *)
+(** loadSpans calls tableSpan(c.T) (after the fix also tableSpan(c.From) / tableSpan(c.To)) with a nil Schema *)
 Definition nil_schema (c : gchange) : bool :=
   match c with
   | GAddTable T | GDropTable T | GModifyTable T _ =>
       match gt_schema T with None => true | Some _ => false end
+  | GRenameTable F T =>
+      match gt_schema F, gt_schema T with Some _, Some _ => false | _, _ => true end
   | _ => false
   end.
 
